@@ -682,12 +682,15 @@ func evalSeq(c *rig.Ctx, cs Case) (*failure, *implRun) {
 		var v verdictJ
 		args := shardArgs(&cs)
 		args["obs"] = impl.Obs
-		args["full"] = false
 		if err := c.Model("C19.judge", args, &v); err != nil {
 			return fail(&failure{kind: "diff", class: "c19.model-error", what: "judge: " + err.Error()})
 		}
 		if !v.Ok {
-			return fail(&failure{kind: "judge", class: classOfKind[v.Kind], impl: v.Api, what: describe(v, impl.Obs)})
+			cl := classOfKind[v.Kind]
+			if v.Kind == 0 && impl.Obs[v.At].Ran {
+				cl = classRacedAck
+			}
+			return fail(&failure{kind: "judge", class: cl, impl: v.Api, what: describe(v, impl.Obs)})
 		}
 	}
 	// which calls wait for a running flush: the regenerated lock facts the theorems rest on, against what was observed
@@ -703,9 +706,8 @@ func evalSeq(c *rig.Ctx, cs Case) (*failure, *implRun) {
 	}
 	// correspondence with the model, on the operations as they really ran
 	var m struct {
-		Steps     []stepJ
-		Judge     bool
-		JudgeFull bool
+		Steps []stepJ
+		Judge bool
 	}
 	ops := append([]OpJ{}, impl.Ops...)
 	if impl.Crashed {
@@ -744,26 +746,6 @@ func evalSeq(c *rig.Ctx, cs Case) (*failure, *implRun) {
 	}
 	if cs.Wf && !impl.Crashed && !m.Judge {
 		return fail(&failure{kind: "diff", class: "c19.model-judge", what: "the model's own history breaks the judge (the theorem c19_durable says it cannot)"})
-	}
-	// the property at full strength under concurrency: a Save acknowledged while a flush runs stays persisted
-	if cs.Wf && impl.Windows > 0 {
-		var v verdictJ
-		args := shardArgs(&cs)
-		args["obs"] = impl.Obs
-		args["full"] = true
-		if err := c.Model("C19.judge", args, &v); err != nil {
-			return fail(&failure{kind: "diff", class: "c19.model-error", what: "judge: " + err.Error()})
-		}
-		if v.Ok != m.JudgeFull {
-			return fail(&failure{kind: "diff", class: "c19.full-judge", impl: v.Ok, model: m.JudgeFull, what: "full-strength judge: model and real store differ"})
-		}
-		if !v.Ok {
-			cl := classRacedAck
-			if v.Kind != 0 {
-				cl = classOfKind[v.Kind]
-			}
-			return fail(&failure{kind: "judge", class: cl, impl: v.Api, what: describe(v, impl.Obs)})
-		}
 	}
 	// the model's Load on the final API (what the next holder sees)
 	var ml struct {
